@@ -5,6 +5,7 @@
 package asset
 
 import (
+	"sync"
 	"time"
 
 	"github.com/cinar/indicator/v2/helper"
@@ -15,6 +16,9 @@ import (
 type InMemoryRepository struct {
 	// storage is the in memory storage for assets.
 	storage map[string][]*Snapshot
+
+	// mu guards storage, a repository may be used from several goroutines.
+	mu sync.RWMutex
 }
 
 // NewInMemoryRepository initializes an in memory repository.
@@ -26,6 +30,9 @@ func NewInMemoryRepository() *InMemoryRepository {
 
 // Assets returns the names of all assets in the repository.
 func (r *InMemoryRepository) Assets() ([]string, error) {
+	r.mu.RLock()
+	defer r.mu.RUnlock()
+
 	assets := make([]string, 0, len(r.storage))
 	for name := range r.storage {
 		assets = append(assets, name)
@@ -36,7 +43,10 @@ func (r *InMemoryRepository) Assets() ([]string, error) {
 
 // Get attempts to return a channel of snapshots for the asset with the given name.
 func (r *InMemoryRepository) Get(name string) (<-chan *Snapshot, error) {
+	r.mu.RLock()
 	snapshots, ok := r.storage[name]
+	r.mu.RUnlock()
+
 	if !ok {
 		return nil, ErrRepositoryAssetNotFound
 	}
@@ -77,13 +87,16 @@ func (r *InMemoryRepository) LastDate(name string) (time.Time, error) {
 
 // Append adds the given snapshows to the asset with the given name.
 func (r *InMemoryRepository) Append(name string, snapshots <-chan *Snapshot) error {
-	combined := r.storage[name]
+	var appended []*Snapshot
 
 	for snapshot := range snapshots {
-		combined = append(combined, snapshot)
+		appended = append(appended, snapshot)
 	}
 
-	r.storage[name] = combined
+	r.mu.Lock()
+	defer r.mu.Unlock()
+
+	r.storage[name] = append(r.storage[name], appended...)
 
 	return nil
 }
